@@ -2,11 +2,13 @@
   Driver operation over the text-format model (C09, View/Text.lean):
 
     text  {"probe":"spaces"} -> {"spaces":[code points for which the model's isPySpace holds]}
+    text  {"probe":"splitlines","texts":[..]} -> {"lines":[pySplitlines(t) per text],"joined":[joinLines of them]}
     text  {"ids":[..],"compressed":b,"n":k,"bits":"0101..",
            "reprs":[[repr(value) per flat value] per subset],      -- Python's '{!r}' of the implementation's values
            "names":[[id,"name"],..], "flags":[ids of FLAG TABLE elements],
            "impl_flat":[lines]|null, "impl_nested":[lines]|null}   -- implementation text: template-data part and what follows
       -> {"flat_lines":[..], "nested_lines":[..]|{"err":..},
+          "flat_lines_ok":b, "nested_lines_ok":b|null,        -- linesOK of the model's lines (join/splitlines safe)
           "len_ok":[b per subset], "side_ok":[b|null], "text_ok":[b|null],
           "flat_back_model":{"rest":n,"toks":[[..]]}|{"err":..},    -- model converter on the model's lines + section mark
           "nested_back_model":..,
@@ -62,6 +64,10 @@ def spacesProbe : Json :=
 
 def opText (st : DrvState) (j : Json) : J (DrvState × Json) := do
   if let .ok (.str "spaces") := j.getObjVal? "probe" then return (st, jobj [("spaces", spacesProbe)])
+  if let .ok (.str "splitlines") := j.getObjVal? "probe" then
+    let texts ← (← asList (← fld j "texts")).mapM asStr
+    return (st, jobj [("lines", jarr (texts.map fun t => linesToJson (pySplitlines t.toList))),
+                      ("joined", jarr (texts.map fun t => jstr (String.ofList (joinLines (pySplitlines t.toList)))))])
   let reprs ← (← asList (← fld j "reprs")).mapM fun s => do (← asList s).mapM asStr
   let names ← (← asList (← fld j "names")).mapM fun p => do
     let l ← asList p
@@ -87,6 +93,10 @@ def opText (st : DrvState) (j : Json) : J (DrvState × Json) := do
     let stop : Line := sectionMark ++ " section 5 >>>>>>".toList
     [("flat_lines", linesToJson flatLines),
      ("nested_lines", cmJson nested linesToJson),
+     ("flat_lines_ok", Json.bool (linesOK (flatLines ++ [stop]))),
+     ("nested_lines_ok", match nested with
+        | .error _ => Json.null
+        | .ok ls => Json.bool (linesOK (ls ++ [stop]))),
      ("len_ok", jarr (outs.map fun o => Json.bool (o.descs.length == o.vals.length))),
      ("side_ok", perSubset fun o w => Json.bool (w.sideOK o)),
      ("text_ok", perSubset fun o w => match w.tree with
